@@ -89,19 +89,53 @@ pub fn parse_smap(t: &mut Toks) -> SourceMap {
   m.set_file(file);
   m.set_source_root(root);
   m.set_debug_id(dbg);
+  // the indexed getters agree with the tables
+  for i in 0..=m.sources().len() {
+    assert_eq!(m.get_source(i), m.sources().get(i).map(|s| s.as_ref()), "get_source");
+  }
+  for i in 0..=m.names().len() {
+    assert_eq!(m.get_name(i), m.names().get(i).map(|s| s.as_ref()), "get_name");
+  }
   m
 }
 
 pub fn build(t: &mut Toks, ctx: &mut Ctx) -> Built {
   match t.next() {
-    "raws" => Built::Other(RawSource::from(t.text()).boxed()),
-    "rawb" => Built::Other(RawSource::from(t.bytes()).boxed()),
-    "rstr" => Built::Other(RawStringSource::from(t.text()).boxed()),
-    "rbuf" => Built::Other(RawBufferSource::from(t.bytes()).boxed()),
+    // every public constructor of a leaf is used (chosen by the length of the text), and every
+    // other leaf is a concrete-type clone of the constructed value: both are the identity in the model
+    "raws" => {
+      let v = t.text();
+      let a = match v.len() % 3 {
+        0 => RawSource::from(v),
+        1 => RawSource::from(v.as_str()),
+        _ => RawSource::from_static(Box::leak(v.into_boxed_str())),
+      };
+      Built::Other(if a.size() % 2 == 0 { a.clone().boxed() } else { a.boxed() })
+    }
+    "rawb" => {
+      let v = t.bytes();
+      let a = if v.len() % 2 == 0 { RawSource::from(v) } else { RawSource::from(v.as_slice()) };
+      Built::Other(if a.size() % 3 == 0 { a.clone().boxed() } else { a.boxed() })
+    }
+    "rstr" => {
+      let v = t.text();
+      let a = match v.len() % 3 {
+        0 => RawStringSource::from(v),
+        1 => RawStringSource::from(v.as_str()),
+        _ => RawStringSource::from_static(Box::leak(v.into_boxed_str())),
+      };
+      Built::Other(if a.size() % 2 == 0 { a.clone().boxed() } else { a.boxed() })
+    }
+    "rbuf" => {
+      let v = t.bytes();
+      let a = if v.len() % 2 == 0 { RawBufferSource::from(v) } else { RawBufferSource::from(v.as_slice()) };
+      Built::Other(if a.size() % 3 == 0 { a.clone().boxed() } else { a.boxed() })
+    }
     "orig" => {
       let v = t.text();
       let n = t.text();
-      Built::Other(OriginalSource::new(v, n).boxed())
+      let a = OriginalSource::new(v, n);
+      Built::Other(if a.size() % 2 == 0 { a.clone().boxed() } else { a.boxed() })
     }
     k @ ("sms" | "usr") => {
       let value = t.text();
@@ -118,17 +152,15 @@ pub fn build(t: &mut Toks, ctx: &mut Ctx) -> Built {
       if k == "usr" {
         Built::Other(UserSource { value, map: source_map }.boxed())
       } else {
-        Built::Other(
-          SourceMapSource::new(SourceMapSourceOptions {
-            value,
-            name,
-            source_map,
-            original_source,
-            inner_source_map,
-            remove_original_source,
-          })
-          .boxed(),
-        )
+        let a = SourceMapSource::new(SourceMapSourceOptions {
+          value,
+          name,
+          source_map,
+          original_source,
+          inner_source_map,
+          remove_original_source,
+        });
+        Built::Other(if a.size() % 2 == 0 { a.clone().boxed() } else { a.boxed() })
       }
     }
     k @ ("concat" | "concata") => {
